@@ -255,3 +255,6 @@ HARNESSES = [
             outside=["RabbitMQ server ordering guarantees", "foreign topics on RabbitMQ (reject+requeue loop timing)"]),
 ]
 ASSUMPTIONS = ["equal priority (MEDIUM); cross-priority order is randomised by design and outside the property"]
+
+from engine.harness import borrowed  # noqa: E402
+HARNESSES.append(borrowed("c05", "H05-mem-steady-load", "H15-mem-due-under-load"))   # a message that became due is not overtaken for ever by later arrivals
